@@ -180,6 +180,15 @@ _CMP = {
 _PYEXC = (ZeroDivisionError, OverflowError, TypeError, ValueError, AttributeError, KeyError, IndexError, UnicodeError)
 
 
+_DUNDER = {ast.Add: "__add__", ast.Sub: "__sub__", ast.Mult: "__mul__", ast.BitOr: "__or__", ast.BitAnd: "__and__"}
+
+
+def _binop(op, a, b):
+    if isinstance(a, Obj) and _DUNDER.get(type(op)) in a.methods:
+        return a.methods[_DUNDER[type(op)]](b)
+    return _guard(_BIN[type(op)], a, b)
+
+
 def _guard(f, *a, **k):
     try:
         return f(*a, **k)
@@ -280,7 +289,7 @@ class Interp:
                     return (a, b)
             if isinstance(a, tuple) and isinstance(b, type) and isinstance(e.op, ast.BitOr) and all(isinstance(x, type) for x in a):
                 return (*a, b)
-            return _guard(f, a, b)
+            return _binop(e.op, a, b)
         if isinstance(e, ast.BoolOp):
             v = None
             for x in e.values:
@@ -554,7 +563,7 @@ class Interp:
             return
         if isinstance(s, ast.AugAssign):
             cur = self.ev(s.target, env, mod)
-            v = _guard(_BIN[type(s.op)], cur, self.ev(s.value, env, mod))
+            v = _binop(s.op, cur, self.ev(s.value, env, mod))
             self._bind(s.target, v, env)
             return
         if isinstance(s, ast.If):
